@@ -60,7 +60,7 @@ def _escapes_loop(fn, loop: ast.For) -> bool:
             return True                                   # stored into attribute / subscript
     elif isinstance(p, ast.Call) and fn in p.args:
         cn = p.func.attr if isinstance(p.func, ast.Attribute) else getattr(p.func, "id", "")
-        return cn in ("append", "extend", "insert", "add", "setdefault", "update")
+        return cn in ("append", "extend", "insert", "add", "setdefault", "update", "setattr")
     elif isinstance(p, (ast.Return, ast.Yield, ast.Dict, ast.List, ast.Tuple, ast.keyword)):
         return True
     if name is None:
@@ -72,7 +72,7 @@ def _escapes_loop(fn, loop: ast.For) -> bool:
                 continue                                  # called inside the iteration
             if isinstance(q, ast.Call) and n in q.args:
                 cn = q.func.attr if isinstance(q.func, ast.Attribute) else getattr(q.func, "id", "")
-                if cn in ("append", "extend", "insert", "add", "setdefault", "update"):
+                if cn in ("append", "extend", "insert", "add", "setdefault", "update", "setattr"):
                     return True
                 continue                                  # passed to a call that runs within the iteration
             if isinstance(q, ast.Assign) and not isinstance(q.targets[0], ast.Name):
@@ -108,7 +108,14 @@ def scan(tree: ast.AST) -> List[Tuple[ast.AST, str, str]]:
                     break
             elif isinstance(anc, ast.For):
                 in_body = any(child is s for s in anc.body)
-                cap = free & _targets(anc.target)
+                # the loop variables, and every local the body re-binds on each iteration (outside this closure): all are read when the closure RUNS
+                rebound = set()
+                inside = {id(x) for x in ast.walk(fn)}
+                for st in ast.walk(anc):
+                    if isinstance(st, (ast.Assign, ast.AugAssign, ast.AnnAssign)) and id(st) not in inside and st is not getattr(fn, "_parent", None):
+                        for t in (st.targets if isinstance(st, ast.Assign) else [st.target]):
+                            rebound |= {x.id for x in ast.walk(t) if isinstance(x, ast.Name) and isinstance(x.ctx, ast.Store)}
+                cap = free & (_targets(anc.target) | rebound)
                 if cap and in_body and not _called_in_place(fn) and _escapes_loop(fn, anc):
                     out.append((fn, ", ".join(sorted(cap)), "for loop"))
                     break
